@@ -91,81 +91,6 @@ theorem bucket_closed (lo hi df h : Nat) (w : Wide lo hi df) (h1 : lo ≤ h) (h2
   have : perRange lo hi df ≠ 0 := by omega
   simp only [this, if_false]
 
-/-- **genTupleRanges_partition** for the Go arithmetic: every wide range splits properly. -/
-theorem goSplit_ok (lo hi df : Nat) (w : Wide lo hi df) : SplitOk goSplit df lo hi := by
-  obtain ⟨hP, hal, hsum⟩ := split_facts lo hi df w
-  have e1 : df * perRange lo hi df = (df - 1) * perRange lo hi df + perRange lo hi df := by
-    have := Nat.succ_mul (df - 1) (perRange lo hi df)
-    rw [Nat.succ_eq_add_one, Nat.sub_add_cancel (by have := w.df2; omega)] at this
-    exact this
-  have hle := w.le
-  have hdf := w.df2
-  constructor
-  · intro i hi'
-    show lo ≤ (childRange lo hi df i).1 ∧ (childRange lo hi df i).2 ≤ hi
-    rw [child_closed lo hi df i w hi']
-    have e2 : i * perRange lo hi df ≤ (df - 1) * perRange lo hi df :=
-      Nat.mul_le_mul_right _ (by omega)
-    constructor
-    · simp only []; omega
-    · simp only []
-      split
-      · omega
-      · have e3 : (i + 1) * perRange lo hi df ≤ (df - 1) * perRange lo hi df :=
-          Nat.mul_le_mul_right _ (by omega)
-        rw [Nat.succ_mul] at e3
-        omega
-  · intro h h1 h2
-    have hb := bucket_closed lo hi df h w h1 h2
-    -- q = (h - lo) / P, with P*q ≤ h - lo < P*q + P
-    have hd := Nat.div_add_mod (h - lo) (perRange lo hi df)
-    have hr := Nat.mod_lt (h - lo) (show perRange lo hi df > 0 by omega)
-    refine ⟨_, hb, ?_, ?_, ?_⟩
-    · split <;> omega
-    · show (childRange lo hi df _).1 ≤ h ∧ h ≤ (childRange lo hi df _).2
-      by_cases hq : (h - lo) / perRange lo hi df > df - 1
-      · simp only [hq, if_true]
-        rw [child_closed lo hi df (df - 1) w (by omega)]
-        simp only [if_true]
-        have e4 : (df - 1) * perRange lo hi df ≤ ((h - lo) / perRange lo hi df) * perRange lo hi df :=
-          Nat.mul_le_mul_right _ (by omega)
-        rw [Nat.mul_comm ((h - lo) / perRange lo hi df)] at e4
-        omega
-      · simp only [hq, if_false]
-        rw [child_closed lo hi df _ w (by omega)]
-        simp only []
-        rw [Nat.mul_comm ((h - lo) / perRange lo hi df)]
-        split <;> omega
-    · intro j hj hne
-      show ¬ ((childRange lo hi df j).1 ≤ h ∧ h ≤ (childRange lo hi df j).2)
-      rw [child_closed lo hi df j w hj]
-      simp only []
-      by_cases hq : (h - lo) / perRange lo hi df > df - 1
-      · simp only [hq, if_true] at hne
-        -- j < df - 1, so the j-th part ends before the last part starts, and h is in or beyond it
-        have hj' : j ≠ df - 1 := hne
-        simp only [hj', if_false]
-        have e3 : (j + 1) * perRange lo hi df ≤ (df - 1) * perRange lo hi df :=
-          Nat.mul_le_mul_right _ (by omega)
-        rw [Nat.succ_mul] at e3
-        have e4 : (df - 1) * perRange lo hi df ≤ ((h - lo) / perRange lo hi df) * perRange lo hi df :=
-          Nat.mul_le_mul_right _ (by omega)
-        rw [Nat.mul_comm ((h - lo) / perRange lo hi df)] at e4
-        omega
-      · simp only [hq, if_false] at hne
-        rw [Nat.mul_comm] at hd
-        by_cases hlt : j < (h - lo) / perRange lo hi df
-        · have hj' : j ≠ df - 1 := by omega
-          simp only [hj', if_false]
-          have e3 : (j + 1) * perRange lo hi df ≤ ((h - lo) / perRange lo hi df) * perRange lo hi df :=
-            Nat.mul_le_mul_right _ (by omega)
-          rw [Nat.succ_mul] at e3
-          omega
-        · have e3 : ((h - lo) / perRange lo hi df + 1) * perRange lo hi df ≤ j * perRange lo hi df :=
-            Nat.mul_le_mul_right _ (by omega)
-          rw [Nat.succ_mul] at e3
-          omega
-
 theorem succ_mul' (i P : Nat) : (i + 1) * P = i * P + P := by rw [Nat.add_mul, Nat.one_mul]
 
 /-- every part of a wide range is a non-empty sub-range -/
@@ -247,6 +172,81 @@ theorem genTupleRanges_eq (lo hi df : Nat) (w : Wide lo hi df) :
   have := genLoop_eq lo hi df w df 0 (by omega)
   simp only [Nat.zero_mul, Nat.add_zero] at this
   rw [this, List.range_eq_range']
+
+/-- **genTupleRanges_partition** for the Go arithmetic: every wide range splits properly. -/
+theorem goSplit_ok (lo hi df : Nat) (w : Wide lo hi df) : SplitOk goSplit df lo hi := by
+  obtain ⟨hP, hal, hsum⟩ := split_facts lo hi df w
+  have e1 : df * perRange lo hi df = (df - 1) * perRange lo hi df + perRange lo hi df := by
+    have := Nat.succ_mul (df - 1) (perRange lo hi df)
+    rw [Nat.succ_eq_add_one, Nat.sub_add_cancel (by have := w.df2; omega)] at this
+    exact this
+  have hle := w.le
+  have hdf := w.df2
+  refine ⟨?_, ?_, fun i hi' => (child_wf lo hi df i w hi').2.1, genTupleRanges_eq lo hi df w⟩
+  · intro i hi'
+    show lo ≤ (childRange lo hi df i).1 ∧ (childRange lo hi df i).2 ≤ hi
+    rw [child_closed lo hi df i w hi']
+    have e2 : i * perRange lo hi df ≤ (df - 1) * perRange lo hi df :=
+      Nat.mul_le_mul_right _ (by omega)
+    constructor
+    · simp only []; omega
+    · simp only []
+      split
+      · omega
+      · have e3 : (i + 1) * perRange lo hi df ≤ (df - 1) * perRange lo hi df :=
+          Nat.mul_le_mul_right _ (by omega)
+        rw [Nat.succ_mul] at e3
+        omega
+  · intro h h1 h2
+    have hb := bucket_closed lo hi df h w h1 h2
+    -- q = (h - lo) / P, with P*q ≤ h - lo < P*q + P
+    have hd := Nat.div_add_mod (h - lo) (perRange lo hi df)
+    have hr := Nat.mod_lt (h - lo) (show perRange lo hi df > 0 by omega)
+    refine ⟨_, hb, ?_, ?_, ?_⟩
+    · split <;> omega
+    · show (childRange lo hi df _).1 ≤ h ∧ h ≤ (childRange lo hi df _).2
+      by_cases hq : (h - lo) / perRange lo hi df > df - 1
+      · simp only [hq, if_true]
+        rw [child_closed lo hi df (df - 1) w (by omega)]
+        simp only [if_true]
+        have e4 : (df - 1) * perRange lo hi df ≤ ((h - lo) / perRange lo hi df) * perRange lo hi df :=
+          Nat.mul_le_mul_right _ (by omega)
+        rw [Nat.mul_comm ((h - lo) / perRange lo hi df)] at e4
+        omega
+      · simp only [hq, if_false]
+        rw [child_closed lo hi df _ w (by omega)]
+        simp only []
+        rw [Nat.mul_comm ((h - lo) / perRange lo hi df)]
+        split <;> omega
+    · intro j hj hne
+      show ¬ ((childRange lo hi df j).1 ≤ h ∧ h ≤ (childRange lo hi df j).2)
+      rw [child_closed lo hi df j w hj]
+      simp only []
+      by_cases hq : (h - lo) / perRange lo hi df > df - 1
+      · simp only [hq, if_true] at hne
+        -- j < df - 1, so the j-th part ends before the last part starts, and h is in or beyond it
+        have hj' : j ≠ df - 1 := hne
+        simp only [hj', if_false]
+        have e3 : (j + 1) * perRange lo hi df ≤ (df - 1) * perRange lo hi df :=
+          Nat.mul_le_mul_right _ (by omega)
+        rw [Nat.succ_mul] at e3
+        have e4 : (df - 1) * perRange lo hi df ≤ ((h - lo) / perRange lo hi df) * perRange lo hi df :=
+          Nat.mul_le_mul_right _ (by omega)
+        rw [Nat.mul_comm ((h - lo) / perRange lo hi df)] at e4
+        omega
+      · simp only [hq, if_false] at hne
+        rw [Nat.mul_comm] at hd
+        by_cases hlt : j < (h - lo) / perRange lo hi df
+        · have hj' : j ≠ df - 1 := by omega
+          simp only [hj', if_false]
+          have e3 : (j + 1) * perRange lo hi df ≤ ((h - lo) / perRange lo hi df) * perRange lo hi df :=
+            Nat.mul_le_mul_right _ (by omega)
+          rw [Nat.succ_mul] at e3
+          omega
+        · have e3 : ((h - lo) / perRange lo hi df + 1) * perRange lo hi df ≤ j * perRange lo hi df :=
+            Nat.mul_le_mul_right _ (by omega)
+          rw [Nat.succ_mul] at e3
+          omega
 
 /-- part `i+1` starts right after part `i` ends; the first starts at `lo`, the last ends at `hi` -/
 theorem parts_consecutive (lo hi df i : Nat) (w : Wide lo hi df) (hi' : i + 1 < df) :
